@@ -220,6 +220,8 @@ class PseudoOperand(Operand):
     def resolve_symbols(self, symbol_table):
         if self.instruction.mnemonic in ["FCB", "FDB", "RMB", "END"] and (self.value.is_symbol() or self.value.is_expression()):
             self.value = self.value.resolve(symbol_table)
+        if self.value.is_multi_byte() or self.value.is_multi_word():
+            self.value.resolve(symbol_table)
         return self
 
     def single_value(self, size_hint):
